@@ -36,7 +36,62 @@ type Case struct {
 	MaxSize  int32    `json:"max_size"`  // expo
 	MaxScale int32    `json:"max_scale"` // expo
 	Ops      []Op     `json:"ops"`       // the last op is a collection
+
+	// Kind is the instrument the measurements are made with: "" = Histogram
+	// (Record), or one of the other six kinds (kindCounter .. kindObsGauge),
+	// all of which may be aggregated as a histogram (view or the reader's
+	// aggregation selector). The measurements of an observable instrument are
+	// observed by its callback during the next collection.
+	Kind string `json:"kind,omitempty"`
+	// NoMinMax is the NoMinMax field of the configured aggregation.
+	NoMinMax bool `json:"no_min_max,omitempty"`
+	// Selector: the aggregation is the answer of the reader's
+	// AggregationSelector (WithAggregationSelector) instead of a view's.
+	Selector bool `json:"selector,omitempty"`
+	// DefaultAgg: explicit, Histogram kind: no view, no selector, no
+	// boundaries option; Bounds holds the documented default boundaries.
+	DefaultAgg bool `json:"default_agg,omitempty"`
+	// RegCallback: observable kinds: the callback is registered with
+	// Meter.RegisterCallback instead of the instrument's WithXCallback option.
+	RegCallback bool `json:"reg_callback,omitempty"`
+	// NeutralView: ViaOption, Selector or DefaultAgg: a view matches the
+	// instrument but only sets a description (no aggregation), so the
+	// aggregation still is the instrument option's / the reader's / the default.
+	NeutralView bool `json:"neutral_view,omitempty"`
 }
+
+// instrument kinds other than Histogram ("")
+const (
+	kindCounter   = "counter"
+	kindUpDown    = "updowncounter"
+	kindGauge     = "gauge"
+	kindObsCount  = "observable_counter"
+	kindObsUpDown = "observable_updowncounter"
+	kindObsGauge  = "observable_gauge"
+)
+
+var allKinds = []string{"", kindCounter, kindUpDown, kindGauge, kindObsCount, kindObsUpDown, kindObsGauge}
+
+func kindObservable(k string) bool {
+	return k == kindObsCount || k == kindObsUpDown || k == kindObsGauge
+}
+
+// kindMonotonic: the API contract of these kinds only allows non-negative
+// measurements.
+func kindMonotonic(k string) bool { return k == kindCounter || k == kindObsCount }
+
+// kindNoSum: "the sum should not be collected for any instrument that can
+// make negative measurements" (specification, metrics SDK, histogram
+// aggregations; quoted in sdk/metric/pipeline.go): for these kinds the Sum
+// field is documented not to be filled and is not compared.
+func kindNoSum(k string) bool {
+	return k == kindUpDown || k == kindGauge || k == kindObsUpDown || k == kindObsGauge
+}
+
+// defaultBounds are the boundaries documented for the default aggregation of
+// a Histogram instrument (DefaultAggregationSelector; specification: explicit
+// bucket histogram aggregation, default boundaries).
+var defaultBounds = []float64{0, 5, 10, 25, 50, 75, 100, 250, 500, 750, 1000, 2500, 5000, 7500, 10000}
 
 // ---------------------------------------------------------------------
 // bucket boundaries of exponential scales, computed in 320-bit arithmetic
@@ -140,7 +195,7 @@ const (
 
 type genCtx struct {
 	c       *Case
-	mode    int     // 0 mixed, 1 clustered then far apart, 2 exact numbers, 3 boundary heavy
+	mode    int     // 0 mixed, 1 clustered then far apart, 2 exact numbers, 3 boundary heavy, 4 extremes of the number type
 	wide    bool    // values may come from the whole float64 range
 	center  float64 // cluster centre, > 0
 	ce      int     // its exponent
@@ -163,6 +218,10 @@ type genCtx struct {
 	wrap    bool
 	pending []int64
 	bigRes  int // sign of the one large group residue left so far (0 = none)
+	// nonNeg: the instrument kind only takes non-negative measurements
+	// (Counter, ObservableCounter): every drawn value is replaced by its
+	// magnitude
+	nonNeg bool
 }
 
 var subnormals = []float64{
@@ -198,6 +257,11 @@ func (g *genCtx) kinds(i int) []int {
 			}
 			add(kZero, 1)
 		}
+		return ks
+	case 4: // the ends of the number type's range (first-value / sentinel corners)
+		add(kMax, 6)
+		add(kZero, 1)
+		add(kSmall, 1)
 		return ks
 	case 3: // boundary heavy, narrow range
 		if g.c.Expo {
@@ -238,6 +302,14 @@ func (g *genCtx) sign(t *rapid.T, v float64) float64 {
 }
 
 func (g *genCtx) float(t *rapid.T, i int) float64 {
+	v := g.floatAny(t, i)
+	if g.nonNeg {
+		v = math.Abs(v) // also -0 -> +0
+	}
+	return v
+}
+
+func (g *genCtx) floatAny(t *rapid.T, i int) float64 {
 	c := g.c
 	switch rapid.SampledFrom(g.kinds(i)).Draw(t, "kind") {
 	case kPow2:
@@ -361,7 +433,7 @@ func (g *genCtx) int(t *rapid.T, i int) int64 {
 	case kSubnormal, kSmall:
 		v = int64(rapid.IntRange(0, 12).Draw(t, "small"))
 	case kMax:
-		v = rapid.SampledFrom([]int64{math.MaxInt64, math.MinInt64, math.MaxInt64 - 1, 1<<53 + 1, 1<<53 + 3, 1<<60 + 1, 1<<62 + 1<<9 + 1}).Draw(t, "extreme")
+		v = rapid.SampledFrom([]int64{math.MaxInt64, math.MinInt64, math.MaxInt64, math.MinInt64, math.MinInt64 + 1, math.MaxInt64 - 1, 1<<53 + 1, 1<<53 + 3, 1<<60 + 1, 1<<62 + 1<<9 + 1}).Draw(t, "extreme")
 	case kZero:
 		v = 0
 	case kCluster:
@@ -382,6 +454,9 @@ func (g *genCtx) int(t *rapid.T, i int) int64 {
 	}
 	if v > 0 && v != math.MinInt64 && g.negRate > 0 && rapid.IntRange(0, 7).Draw(t, "neg") < g.negRate {
 		v = -v
+	}
+	if g.nonNeg && v < 0 {
+		v = -(v + 1) // MinInt64 -> MaxInt64
 	}
 	// enforce the budget by construction
 	switch {
@@ -509,10 +584,21 @@ func bitsLen(v int64) int {
 // genExpoConfig draws MaxSize / MaxScale and the scales boundary neighbours
 // are computed for.
 func genExpoConfig(t *rapid.T, c *Case, g *genCtx) {
-	if uni(t, "sizecorner", 4) != 3 {
+	switch k := uni(t, "sizecorner", 16); {
+	case k < 11:
 		c.MaxSize = []int32{4, 160, 1, 2, 3, 20, 160, 20}[uni(t, "maxsize", 8)]
-	} else {
+	case k < 15:
 		c.MaxSize = int32(1 + uni(t, "maxsize", 160))
+	default:
+		// MaxSize has no documented upper limit: beyond the default of 160
+		// on a log scale (161 .. 2^8 .. 2^12), with the powers of two and
+		// their neighbours favoured
+		bits := 8 + uni(t, "maxsizebits", 5)
+		if rapid.Bool().Draw(t, "maxsizepow2") {
+			c.MaxSize = int32(1)<<uint(bits) + int32(rapid.IntRange(-1, 1).Draw(t, "maxsizeoff"))
+		} else {
+			c.MaxSize = rapid.Int32Range(161, int32(1)<<uint(bits)).Draw(t, "maxsizewide")
+		}
 	}
 	if uni(t, "scalecorner", 2) == 0 {
 		c.MaxScale = []int32{0, 20, 1, 2, 3, -1, -10, 5, 8, 10, 15, 20, 12, 18, 6, 4}[uni(t, "maxscale", 16)]
@@ -530,7 +616,7 @@ func genExpoConfig(t *rapid.T, c *Case, g *genCtx) {
 // configuration).
 func (g *genCtx) setup(t *rapid.T) {
 	c := g.c
-	g.mode = []int{0, 0, 0, 1, 1, 2, 3, 3}[uni(t, "mode", 8)]
+	g.mode = []int{0, 0, 0, 0, 0, 0, 1, 1, 1, 1, 2, 2, 3, 3, 3, 4}[uni(t, "mode", 16)]
 	g.wide = uni(t, "wide", 4) == 3
 	g.ce = rapid.IntRange(-8, 8).Draw(t, "centerexp")
 	if rapid.IntRange(0, 5).Draw(t, "centerwide") == 0 {
@@ -544,8 +630,11 @@ func (g *genCtx) setup(t *rapid.T) {
 	g.negRate = rapid.SampledFrom([]int{0, 0, 2, 4}).Draw(t, "negrate")
 	g.e0 = rapid.IntRange(-1074, 960).Draw(t, "e0")
 	g.sets = rapid.SampledFrom([]int{1, 1, 1, 2}).Draw(t, "sets")
-	if c.Int && uni(t, "wrap", 3) == 0 {
+	if c.Int && !g.nonNeg && uni(t, "wrap", 3) == 0 {
 		g.wrap, g.sets = true, 1
+	}
+	if g.nonNeg {
+		g.negRate = 0
 	}
 	if c.Expo && c.MaxScale >= 1 {
 		g.winScale = max(1, int(c.MaxScale)-[]int{0, 0, 0, 1, 2, 5}[uni(t, "windown", 6)])
@@ -555,21 +644,47 @@ func (g *genCtx) setup(t *rapid.T) {
 }
 
 func genCase(expo bool) func(t *rapid.T) Case {
-	return func(t *rapid.T) Case {
+	return func(t *rapid.T) Case { return genCaseOf(t, expo, false) }
+}
+
+// genCaseOf draws a case; kinds: the instrument kind is drawn too (otherwise
+// it is a Histogram).
+func genCaseOf(t *rapid.T, expo, kinds bool) Case {
+	{
 		c := Case{Expo: expo}
+		if kinds {
+			c.Kind = allKinds[uni(t, "kind", len(allKinds))]
+			c.RegCallback = kindObservable(c.Kind) && rapid.Bool().Draw(t, "regcallback")
+		}
 		c.Int = rapid.IntRange(0, 3).Draw(t, "int") == 0
 		c.Cumulative = rapid.Bool().Draw(t, "cumulative")
 		c.Reuse = rapid.Bool().Draw(t, "reuse")
-		g := &genCtx{c: &c}
+		g := &genCtx{c: &c, nonNeg: kindMonotonic(c.Kind)}
 		if expo {
 			genExpoConfig(t, &c, g)
 		} else {
 			c.Bounds = genBounds(t)
-			c.ViaOption = len(c.Bounds) > 0 && rapid.IntRange(0, 3).Draw(t, "viaoption") == 0
+			// the boundaries option exists for Histogram instruments only
+			c.ViaOption = c.Kind == "" && len(c.Bounds) > 0 && rapid.IntRange(0, 3).Draw(t, "viaoption") == 0
 			if !c.ViaOption && len(c.Bounds) > 1 && rapid.IntRange(0, 3).Draw(t, "rawview") == 0 {
 				c.RawView = true
 				c.Shuffle = rapid.SliceOfN(rapid.IntRange(0, len(c.Bounds)-1), 1, 6).Draw(t, "shuffle")
 			}
+			if c.Kind == "" && !c.ViaOption && !c.RawView && uni(t, "defaultagg", 8) == 0 {
+				// nothing configured: the documented default boundaries
+				c.DefaultAgg = true
+				c.Bounds = nil
+				for _, b := range defaultBounds {
+					c.Bounds = append(c.Bounds, vk.F64(b))
+				}
+			}
+		}
+		if !c.ViaOption && !c.DefaultAgg {
+			c.NoMinMax = uni(t, "nominmax", 4) == 0
+			c.Selector = !c.RawView && uni(t, "selector", 4) == 0
+		}
+		if c.ViaOption || c.DefaultAgg || c.Selector {
+			c.NeutralView = uni(t, "neutralview", 3) == 0
 		}
 		g.setup(t)
 
